@@ -57,8 +57,11 @@ theorem upSelect_spec {mk : Masks} {tbl : List Row} {got goq gm : Option (M α)}
       List.Forall₂ (fun i p => q[i]? = some p) x.pvdofq x.q' ∧
       List.Forall₂ (fun i p => s[i]? = some p) x.pvdofs x.s' ∧
       (∀ g, got = some g → x.gotM = g) ∧ (∀ g, goq = some g → x.goqM = g) ∧
+      (got = none → ∀ r ∈ x.gotM.r, r.length = x.gotM.c) ∧ (goq = none → ∀ r ∈ x.goqM.r, r.length = x.goqM.c) ∧
       x.pm = (match procMset mkKey mk tbl gm dofr with | .ok v => v | .error _ => none) ∧
-      (∃ v, procMset mkKey mk tbl gm dofr = .ok v) := by
+      (∃ v, procMset mkKey mk tbl gm dofr = .ok v) ∧
+      (∀ y, x.pm = some y → setPos tbl mk.n mk.t = .ok x.tnoq.1 ∧ setPos tbl mk.n mk.o = .ok x.tnoq.2.1 ∧
+        setPos tbl mk.n mk.q = .ok x.tnoq.2.2) := by
   unfold upSelect at h
   obtain ⟨t, ht, h⟩ := bind_ok h
   obtain ⟨st, hst, h⟩ := bind_ok h
@@ -67,7 +70,7 @@ theorem upSelect_spec {mk : Masks} {tbl : List Row} {got goq gm : Option (M α)}
   obtain ⟨goqM, hgoq, h⟩ := bind_ok h
   obtain ⟨gotM, hgot, h⟩ := bind_ok h
   obtain ⟨pm, hpm, h⟩ := bind_ok h
-  obtain ⟨tnoq, _, h⟩ := bind_ok h
+  obtain ⟨tnoq, htnoq, h⟩ := bind_ok h
   obtain ⟨q, hq, h⟩ := bind_ok h
   obtain ⟨sq, hsq, h⟩ := bind_ok h
   obtain ⟨s, hs, h⟩ := bind_ok h
@@ -75,14 +78,48 @@ theorem upSelect_spec {mk : Masks} {tbl : List Row} {got goq gm : Option (M α)}
   simp only [Except.ok.injEq] at h
   subst h
   refine ⟨t, o, q, s, ht, ho, hq, hs, selSet_spec hst, selSet_spec hso, selSet_spec hsq, selSet_spec hss,
-    ?_, ?_, ?_, ⟨pm, hpm⟩⟩
+    ?_, ?_, ?_, ?_, ?_, ⟨pm, hpm⟩, ?_⟩
   · intro g hg; subst hg
     simp only [pure, Except.pure, Except.ok.injEq] at hgot
     exact hgot.symm
   · intro g hg; subst hg
     simp only [pure, Except.pure, Except.ok.injEq] at hgoq
     exact hgoq.symm
+  · intro hg; subst hg
+    simp only at hgot
+    obtain ⟨t1, _, hgot⟩ := bind_ok hgot
+    simp only [pure, Except.pure, Except.ok.injEq] at hgot
+    subst hgot
+    intro r hr
+    simp only at hr ⊢
+    rw [List.eq_of_mem_replicate hr, zeroRow_length]
+  · intro hg; subst hg
+    simp only at hgoq
+    obtain ⟨q1, _, hgoq⟩ := bind_ok hgoq
+    simp only [pure, Except.pure, Except.ok.injEq] at hgoq
+    subst hgoq
+    intro r hr
+    split at hr
+    · simp only at hr
+      rename_i hpos
+      simp only [hpos, if_true]
+      rw [List.eq_of_mem_replicate hr, zeroRow_length]
+    · rename_i hpos
+      simp only [hpos, if_false]
+      simp only [List.mem_singleton] at hr
+      subst hr
+      rfl
   · simp only [hpm]
+  · intro y hy
+    simp only at hy
+    subst hy
+    simp only at htnoq
+    obtain ⟨t_n, ht_n, htnoq⟩ := bind_ok htnoq
+    obtain ⟨o_n, ho_n, htnoq⟩ := bind_ok htnoq
+    obtain ⟨q_n, hq_n, htnoq⟩ := bind_ok htnoq
+    simp only [pure, Except.pure, Except.ok.injEq] at htnoq
+    subst htnoq
+    exact ⟨ht_n, ho_n, hq_n⟩
 
 end sel
 end PyYetiVerif.Uset
